@@ -251,7 +251,12 @@ def read_range_input(specification: str) -> List[float]:
         step = 0.005
         if len(parts) == 3:
             step = float(parts[2])
-        values = np.arange(min_value, max_value + step, step).tolist()
+        values = np.arange(min_value, max_value + step, step)
+        # np.arange(min, max + step, step) runs one step past max whenever step
+        # does not divide max - min exactly (also through floating-point
+        # rounding, e.g. 0.55:0.56:0.01): keep the values up to max only.
+        n_values = int(np.floor((max_value - min_value) / step + 1e-9)) + 1
+        values = values[:max(n_values, 0)].tolist()
     elif ',' in specification:
         values = [float(s) for s in specification.split(',')]
     else:
